@@ -53,8 +53,8 @@ def line (o : Op) (inp : Input) : String :=
   let st := exec o inp
   if !st.oob.isEmpty then "fault:oob" else
   let args := (st.args.zipIdx.map fun (l, a) => s!"a{a}={showSlots l}")
-  s!"t={tag o inp} r={showSlots st.res} " ++ " ".intercalate args ++
-    s!" cp={showIds (sort (dedup st.cp))} mv={showIds (sort (st.mv ++ st.sw))} ram={showIds (sort (dedup st.ram))}"
+  " ".intercalate ([s!"t={tag o inp}", s!"r={showSlots st.res}"] ++ args ++
+    [s!"cp={showIds (sort (dedup st.cp))}", s!"mv={showIds (sort (st.mv ++ st.sw))}", s!"ram={showIds (sort (dedup st.ram))}"])
 
 def handle (toks : List String) : String :=
   match toks with
